@@ -130,6 +130,13 @@ func checkC18(c *Ctx, r *Report) {
 		r.add("C18.a", "guardedby", "packages-facade:only-glob-matched-files-are-sources", "the glob-matched files are kept as a set and each is a source once", nil, nil, "the glob-matched set (a map keyed by absolute path) was not found in initWithGlobs")
 	}
 	checkStatusCodeClasses(c, r, "C18.d")
+	// every comment line's own position is asked of the file set (a line guessed from its
+	// neighbour's - first+i - is wrong as soon as the group is not one comment per consecutive line)
+	for _, f := range []struct{ field, via string }{{"StartLine", "Pos"}, {"StartCol", "Pos"}, {"EndLine", "End"}, {"EndCol", "End"}} {
+		ruleFieldFlow(c, r, ffSpec{Clause: "C18.b", Fn: "gast.MapDocListToCommentBlock", Owner: w.lookupType("gast", "CommentPosition"), Field: f.field,
+			MustCalls: []string{"(*go/token.FileSet).Position", "(*go/ast.Comment)." + f.via}, AllowedCalls: []string{"builtin.max"}, AllowedFields: []string{"*"}, AllowArith: true,
+			Desc: "CommentPosition." + f.field + " = fileSet.Position(comment." + f.via + "()) made 0-based"})
+	}
 	// the file a diagnostic names comes from the per-file version record: that memo is keyed by the file itself
 	checkMemoKeys(c, r, "C18.c")
 	const lv = "(core/validators.AnnotationLinkValidator).Validate"
